@@ -48,79 +48,108 @@ def run(rep, rng, tier, replay=None):
                           nontrivial=lambda c: c["L"] >= 2 or any(ed["mass"] is not None for ed in c["edge_data"]), extra_cases=extra, emax=6)
     skipped = 0
     worst = dict(lo=None, hi=None)
-    for c, fi, m, o, timpl in got:
-        n_ = SC.case_numbers(c)
-        E, D, L = n_["E"], n_["D"], n_["L"]
-        if "ext_mom" not in c or E > 7:
-            continue
-        if not all(math.isfinite(b2f(v)) and b2f(v) > 0 for v in fi["x"]):
-            skipped += 1          # parameters over/underflowed: f64 range, not the bound, is exceeded
-            continue
-        x = [Fr(b2f(v)) for v in fi["x"]]
-        masses = [Fr(mm) for mm in n_["masses"]]
-        shifts = [[Fr(s) for s in sh] for sh in n_["shifts"]]
-        ext = {int(k): [Fr(q) for q in mom] for k, mom in c["ext_mom"].items()}
-        # "generic Euclidean kinematics": no proper non-empty subset of the external momenta may sum to zero (otherwise a monomial of F
-        # that the graph-theoretic V_tr counts on has coefficient zero); such draws are outside the quantifier
-        evs = sorted(ext)
-        generic = True
-        for mask in range(1, (1 << len(evs)) - 1):
-            tot = [sum(ext[evs[i]][d] for i in range(len(evs)) if mask >> i & 1) for d in range(D)]
-            if all(t == 0 for t in tot):
-                generic = False
-                break
-        if not generic:
-            skipped += 1
-            continue
-        coef, trees = f_polynomial(n_["pairs"], ext, masses)
-        NT = len(trees)
-        Vx, ratio, Lm, _, _ = X.v_poly(x, n_["sig"], shifts, masses)
-        if not coef or ratio is None or ratio > Fr(10) ** 8 or Vx <= 0:
-            skipped += 1
-            continue
-        kapL = X.cond_estimate(Lm)
-        if kapL is None or ratio * kapL > Fr(10) ** 8:
-            skipped += 1          # V = sum x(m^2+p^2) - u^T L^-1 u is conditioned by kappa(L) x cancellation: beyond 1e8 the property does not quantify
-            continue
-        cmin, csum = min(coef.values()), sum(coef.values())
 
-        def mono_val(mono):
-            v = Fr(1)
-            for e, k in enumerate(mono):
-                v *= x[e] ** k
-            return v
-        Utr = max(mono_val(tuple(0 if e in T else 1 for e in range(E))) for T in trees)
-        Ftr = max(mono_val(mn) for mn in coef)
-        Vtr = Ftr / Utr
-        if not all(math.isfinite(b2f(t)) and b2f(t) > 0 for t in [fi["u"], fi["v"], fi["jacobian"]]):
-            # the parameters are finite and positive and the exact V is well conditioned: U, V and the weight must be positive numbers
-            rep.violation("property", "returned u = %r, v = %r, jacobian = %r are not all finite and positive although U_tr = %r, V_tr = %r, exact V = %r (cancellation %.3g)" % (
-                b2f(fi["u"]), b2f(fi["v"]), b2f(fi["jacobian"]), float(Utr), float(Vtr), float(Vx), float(ratio)), case=c, failing_input=True,
-                what="Symanzik/tropical bounds violated (non-positive or non-finite value)")
-            continue
-        u, v = Fr(b2f(fi["u"])), Fr(b2f(fi["v"]))
-        slack = Fr(1) + Fr(1, 10**9) * max(Fr(1), ratio)
-        bad = []
-        if not (Utr <= u * slack and u <= NT * Utr * slack):
-            bad.append("U_tr <= U <= N_T U_tr fails: U_tr=%r U=%r N_T=%d" % (float(Utr), float(u), NT))
-        if not (cmin / NT * Vtr <= v * slack and v <= csum * Vtr * slack):
-            bad.append("(c_min/N_T) V_tr <= V <= C_sum V_tr fails: V_tr=%r V=%r c_min=%r C_sum=%r N_T=%d" % (float(Vtr), float(v), float(cmin), float(csum), NT))
-        dod = b2f(timpl["dod"])
-        fac = b2f(timpl["factor_bits"])
-        if math.isfinite(fac) and fac > 0 and dod > 0:
-            ratio_ret = b2f(fi["jacobian"]) / fac
-            lo = float(NT) ** (-D / 2.0) * float(csum) ** (-dod)
-            hi = (float(NT) / float(cmin)) ** dod
-            if not (lo * (1 - 1e-7) <= ratio_ret <= hi * (1 + 1e-7)):
-                bad.append("jacobian/normalisation = %r outside [N_T^(-D/2) C_sum^(-dod), (N_T/c_min)^dod] = [%r, %r]" % (ratio_ret, lo, hi))
-            worst["lo"] = min(worst["lo"], ratio_ret / lo) if worst["lo"] is not None else ratio_ret / lo
-            worst["hi"] = max(worst["hi"], ratio_ret / hi) if worst["hi"] is not None else ratio_ret / hi
-        # the returned tropical values are the tropical polynomials at the sampled parameters (rescaled gauge: both 1)
-        if not rel_close(float(Utr) ** (D / 2.0) * float(Vtr) ** dod, 1.0, 1e-8 * (1 + D + abs(dod))):
-            bad.append("U_tr^(D/2) V_tr^dod at the sampled parameters = %r, expected 1 (u_trop = v_trop = 1 are returned)" % (float(Utr) ** (D / 2.0) * float(Vtr) ** dod))
-        if bad:
-            rep.violation("property", "; ".join(bad[:3]), case=c, failing_input=True, what="Symanzik/tropical bounds violated")
-        rep.sample(dict(graph=c["family"], N_T=NT, c_min=float(cmin), C_sum=float(csum), U_over_Utr=float(u / Utr), V_over_Vtr=float(v / Vtr)))
+    def judge(lst):
+        nonlocal skipped
+        for c, fi, m, o, timpl in lst:
+            judge_one(c, fi, timpl)
+
+    def judge_one(c, fi, timpl):
+        nonlocal skipped
+        for _once in (0,):
+            n_ = SC.case_numbers(c)
+            E, D, L = n_["E"], n_["D"], n_["L"]
+            if "ext_mom" not in c or E > 7:
+                continue
+            if not all(math.isfinite(b2f(v)) and b2f(v) > 0 for v in fi["x"]):
+                skipped += 1          # parameters over/underflowed: f64 range, not the bound, is exceeded
+                continue
+            x = [Fr(b2f(v)) for v in fi["x"]]
+            masses = [Fr(mm) for mm in n_["masses"]]
+            shifts = [[Fr(s) for s in sh] for sh in n_["shifts"]]
+            ext = {int(k): [Fr(q) for q in mom] for k, mom in c["ext_mom"].items()}
+            # "generic Euclidean kinematics": no proper non-empty subset of the external momenta may sum to zero (otherwise a monomial of F
+            # that the graph-theoretic V_tr counts on has coefficient zero); such draws are outside the quantifier
+            evs = sorted(ext)
+            generic = True
+            for mask in range(1, (1 << len(evs)) - 1):
+                tot = [sum(ext[evs[i]][d] for i in range(len(evs)) if mask >> i & 1) for d in range(D)]
+                if all(t == 0 for t in tot):
+                    generic = False
+                    break
+            if not generic:
+                skipped += 1
+                continue
+            coef, trees = f_polynomial(n_["pairs"], ext, masses)
+            NT = len(trees)
+            Vx, ratio, Lm, _, _ = X.v_poly(x, n_["sig"], shifts, masses)
+            if not coef or ratio is None or ratio > Fr(10) ** 8 or Vx <= 0:
+                skipped += 1
+                continue
+            kapL = X.cond_estimate(Lm)
+            if kapL is None or ratio * kapL > Fr(10) ** 8:
+                skipped += 1          # V = sum x(m^2+p^2) - u^T L^-1 u is conditioned by kappa(L) x cancellation: beyond 1e8 the property does not quantify
+                continue
+            cmin, csum = min(coef.values()), sum(coef.values())
+
+            def mono_val(mono):
+                v = Fr(1)
+                for e, k in enumerate(mono):
+                    v *= x[e] ** k
+                return v
+            Utr = max(mono_val(tuple(0 if e in T else 1 for e in range(E))) for T in trees)
+            Ftr = max(mono_val(mn) for mn in coef)
+            Vtr = Ftr / Utr
+            if not all(math.isfinite(b2f(t)) and b2f(t) > 0 for t in [fi["u"], fi["v"], fi["jacobian"]]):
+                # the parameters are finite and positive and the exact V is well conditioned: U, V and the weight must be positive numbers
+                rep.violation("property", "returned u = %r, v = %r, jacobian = %r are not all finite and positive although U_tr = %r, V_tr = %r, exact V = %r (cancellation %.3g)" % (
+                    b2f(fi["u"]), b2f(fi["v"]), b2f(fi["jacobian"]), float(Utr), float(Vtr), float(Vx), float(ratio)), case=c, failing_input=True,
+                    what="Symanzik/tropical bounds violated (non-positive or non-finite value)")
+                continue
+            u, v = Fr(b2f(fi["u"])), Fr(b2f(fi["v"]))
+            slack = Fr(1) + Fr(1, 10**9) * max(Fr(1), ratio)
+            bad = []
+            if not (Utr <= u * slack and u <= NT * Utr * slack):
+                bad.append("U_tr <= U <= N_T U_tr fails: U_tr=%r U=%r N_T=%d" % (float(Utr), float(u), NT))
+            if not (cmin / NT * Vtr <= v * slack and v <= csum * Vtr * slack):
+                bad.append("(c_min/N_T) V_tr <= V <= C_sum V_tr fails: V_tr=%r V=%r c_min=%r C_sum=%r N_T=%d" % (float(Vtr), float(v), float(cmin), float(csum), NT))
+            dod = b2f(timpl["dod"])
+            fac = b2f(timpl["factor_bits"])
+            if math.isfinite(fac) and fac > 0 and dod > 0:
+                ratio_ret = b2f(fi["jacobian"]) / fac
+                lo = float(NT) ** (-D / 2.0) * float(csum) ** (-dod)
+                hi = (float(NT) / float(cmin)) ** dod
+                if not (lo * (1 - 1e-7) <= ratio_ret <= hi * (1 + 1e-7)):
+                    bad.append("jacobian/normalisation = %r outside [N_T^(-D/2) C_sum^(-dod), (N_T/c_min)^dod] = [%r, %r]" % (ratio_ret, lo, hi))
+                worst["lo"] = min(worst["lo"], ratio_ret / lo) if worst["lo"] is not None else ratio_ret / lo
+                worst["hi"] = max(worst["hi"], ratio_ret / hi) if worst["hi"] is not None else ratio_ret / hi
+            # the returned tropical values are the tropical polynomials at the sampled parameters (rescaled gauge: both 1)
+            if not rel_close(float(Utr) ** (D / 2.0) * float(Vtr) ** dod, 1.0, 1e-8 * (1 + D + abs(dod))):
+                bad.append("U_tr^(D/2) V_tr^dod at the sampled parameters = %r, expected 1 (u_trop = v_trop = 1 are returned)" % (float(Utr) ** (D / 2.0) * float(Vtr) ** dod))
+            if bad:
+                rep.violation("property", "; ".join(bad[:3]), case=c, failing_input=True, what="Symanzik/tropical bounds violated")
+            rep.sample(dict(graph=c["family"], N_T=NT, c_min=float(cmin), C_sum=float(csum), U_over_Utr=float(u / Utr), V_over_Vtr=float(v / Vtr)))
+    judge(got)
+    # search after a break: where the returned u or v left the model, move the case to corner points (xi coordinates at 1e-3, 1e-6),
+    # where one monomial dominates and the two-sided bounds are tight, and judge the implementation there
+    broken = [(c, fi) for c, fi, m, o, timpl in got if "ext_mom" in c and len(c["edges"]) <= 7 and math.isfinite(b2f(m["u"])) and math.isfinite(b2f(m["v"]))
+              and (not rel_close(b2f(fi["u"]), b2f(m["u"]), 1e-6) or not rel_close(b2f(fi["v"]), b2f(m["v"]), 1e-6))]
+    if broken and not any(v_["kind"] == "property" for v_ in rep.violations):
+        variants = []
+        for c, fi in broken[:6]:
+            for _ in range(6):
+                variants.append(SC.cornerize(rng.fork(), json.loads(json.dumps(c)), exps=(2, 3, 4, 6)))
+        got2 = []
+        res2 = SC.run_samples("C02search", variants)
+        for c2, x2 in zip(variants, res2):
+            o2 = x2["impl"]
+            if "f64" not in o2:
+                continue
+            f2 = SC.impl_fields(o2["f64"])
+            if f2["tag"] == "ok":
+                got2.append((c2, f2, x2["model"], o2, x2["table"]))
+        judge(got2)
+        rep.cov["search_after_break_cases"] = len(got2)
     rep.cov["skipped_cancellation_above_1e8_or_non_generic_kinematics"] = skipped
     rep.cov["closest_approach_to_bounds(ratio/lower, ratio/upper)"] = worst
     rep.cov["rule"] = ("accepted connected graphs with momentum-conserving generic kinematics (external momenta on all vertices), masses on massive edges; a quarter of the points with "
